@@ -169,6 +169,10 @@ pub fn explore(
 
 /// Run `f(i)` for `i in 0..n` on `workers` threads (dynamic work distribution).
 pub fn par_for<F: Fn(usize) + Sync>(n: usize, workers: usize, f: F) {
+    // VERIF_SEED only rotates the ORDER in which the (always complete) index space is walked, so
+    // that a wall cap, if one is ever hit, does not always cut the same tail
+    let rot = std::env::var("VERIF_SEED").ok().and_then(|s| s.parse::<usize>().ok()).unwrap_or(0) % n.max(1);
+    let f = |i: usize| f((i + rot) % n.max(1));
     let next = AtomicUsize::new(0);
     let panicked: Mutex<Option<String>> = Mutex::new(None);
     std::thread::scope(|s| {
